@@ -8,8 +8,10 @@
 package apigen
 
 import (
+	"bytes"
 	"fmt"
 	"io"
+	"reflect"
 
 	"github.com/Eyevinn/mp4ff/bits"
 	"github.com/Eyevinn/mp4ff/mp4"
@@ -183,12 +185,17 @@ type progR struct {
 }
 
 type Case struct {
-	Kind    string   `json:"kind"` // init | fragment | segment | file-frag | file-prog | box
-	Init    *initR   `json:"init,omitempty"`
-	Segs    []segR   `json:"segs,omitempty"`
-	File    *fileR   `json:"file,omitempty"`
-	Prog    *progR   `json:"prog,omitempty"`
-	Box     *boxR    `json:"box,omitempty"`
+	Kind string `json:"kind"` // init | fragment | segment | file-frag | file-prog | box
+	Init *initR `json:"init,omitempty"`
+	Segs []segR `json:"segs,omitempty"`
+	File *fileR `json:"file,omitempty"`
+	Prog *progR `json:"prog,omitempty"`
+	Box  *boxR  `json:"box,omitempty"`
+	// Box2 (kind box, optional): a second recipe of the same box kind. The box built from Box is used (Size, Info,
+	// Encode, EncodeSW), then the public fields of a box built from Box2 are assigned to it; a second box built from
+	// Box that was never used gets the same assignment. Both must then have the same Size() and encode to the same
+	// bytes: having been used must not matter (see ReuseAfterUse).
+	Box2    *boxR    `json:"box2,omitempty"`
 	Decrypt bool     `json:"decrypt,omitempty"` // fragment/segment with a protected init: DecryptInit + DecryptFragment on every encrypted fragment
 	Opt     bool     `json:"opt,omitempty"`     // EncOptimize = OptimizeTrun, set once before the history
 	Hist    []string `json:"hist"`              // size | info | info-all | info-trun | enc | sw | swbig
@@ -1092,4 +1099,52 @@ func attachMeta(frag *mp4.Fragment, r *fragR, all []byte) {
 		return
 	}
 	frag.Mdat.SetData(all)
+}
+
+// ReuseAfterUse builds the box of c.Box twice and the box of c.Box2 twice, uses the first (Size, Info at two
+// levels, Encode, EncodeSW), assigns the exported fields of the Box2 boxes to both and returns what the used and the
+// unused object encode to afterwards. ok is false when the case has no second recipe, the recipes are refused, or
+// the two kinds build different Go types.
+func ReuseAfterUse(c *Case) (what string, usedEnc, freshEnc []byte, usedSize, freshSize uint64, usedErr, freshErr error, ok bool) {
+	if c.Kind != "box" || c.Box == nil || c.Box2 == nil || c.Box.T != c.Box2.T {
+		return
+	}
+	used, e1 := buildBox(c.Box)
+	fresh, e2 := buildBox(c.Box)
+	b1, e3 := buildBox(c.Box2)
+	b2, e4 := buildBox(c.Box2)
+	if e1 != nil || e2 != nil || e3 != nil || e4 != nil {
+		return
+	}
+	tu, tb := reflect.TypeOf(used), reflect.TypeOf(b1)
+	if tu != tb || tu.Kind() != reflect.Ptr || tu.Elem().Kind() != reflect.Struct {
+		return
+	}
+	what = used.Type()
+	_ = used.Size()
+	var sink bytes.Buffer
+	_ = used.Info(&sink, "", "", "  ")
+	_ = used.Info(&sink, "all:1", "", "  ")
+	_ = used.Encode(&sink)
+	sw := bits.NewFixedSliceWriter(int(used.Size()) + 16)
+	_ = used.EncodeSW(sw)
+	_ = used.Size()
+	harness.AssignExported(used, b1)
+	harness.AssignExported(fresh, b2)
+	// the assignment may leave an object in a state no constructor produces (public fields of one identity next to
+	// unexported ones of another): whatever happens then must happen to both objects alike
+	after := func(b mp4.Box) (size uint64, enc []byte, err error) {
+		defer func() {
+			if r := recover(); r != nil {
+				size, enc, err = 0, nil, fmt.Errorf("panic: %v", r)
+			}
+		}()
+		size = b.Size()
+		var w bytes.Buffer
+		err = b.Encode(&w)
+		return size, w.Bytes(), err
+	}
+	usedSize, usedEnc, usedErr = after(used)
+	freshSize, freshEnc, freshErr = after(fresh)
+	return what, usedEnc, freshEnc, usedSize, freshSize, usedErr, freshErr, true
 }
